@@ -165,7 +165,12 @@ def refstring(fn):
 
 def is_tooled(fn):
     """Return whether a function has been tooled for Ptera."""
-    return (
-        isinstance(fn, types.FunctionType)
-        and getattr(fn, "__ptera_info__", None) is not None
-    )
+    if (
+        not isinstance(fn, types.FunctionType)
+        or getattr(fn, "__ptera_info__", None) is None
+    ):
+        return False
+    # A wrapper made with functools.wraps has a copy of the attributes of the
+    # function it wraps: the tooled function is the one its token refers to
+    token = getattr(fn, "__ptera_token__", None)
+    return token is None or fn.__globals__.get(token) is fn
